@@ -118,7 +118,8 @@ func Classify(mail bool, arg string, f Flags) Result {
 			v.unsp("whitespace variant between parameters")
 		}
 		seen := map[string]bool{}
-		for _, tok := range strings.Fields(strings.ReplaceAll(rest, "\t", " ")) {
+		// SMTP white space is SP (and, leniently, HT) - not every Unicode space
+		for _, tok := range strings.FieldsFunc(rest, func(r rune) bool { return r == ' ' || r == '\t' }) {
 			key, val, hasVal := tok, "", false
 			if i := strings.IndexByte(tok, '='); i >= 0 {
 				key, val, hasVal = tok[:i], tok[i+1:], true
